@@ -16,10 +16,18 @@ import (
 
 // EnsureDirExists creates directories if the path not exists
 func EnsureDirExists(path string) error {
-	if _, err := os.Stat(path); os.IsNotExist(err) {
-		return os.MkdirAll(path, dirPerm)
+	// parents first; the directory itself is created with a single mkdir so that
+	// exactly one of several concurrent callers is told that it created it
+	if err := os.MkdirAll(filepath.Dir(path), dirPerm); err != nil {
+		return err
 	}
-	return os.ErrExist
+	if err := os.Mkdir(path, dirPerm); err != nil {
+		if os.IsExist(err) {
+			return os.ErrExist
+		}
+		return err
+	}
+	return nil
 }
 
 // CreateV1ControllerPath create path for controller with given group, prefix
